@@ -234,7 +234,7 @@ def derived_job(args):
             continue
         hist[kind] = hist.get(kind, 0) + 1
         exprs_.append(e)
-        cases.append({"req": f"(derived {op} {ctx} (operands {' '.join(ser_value(o, sigidx) for o in ops)}) {envtxt})",
+        cases.append({"req": f"(derived {op} {ctx} (operands {' '.join(ser_value(o, sigidx) for o in ops)}) (built {ser_value(e, sigidx)}) {envtxt})",
                       "repr": f"{kind} {op} on {[repr(o)[:120] for o in ops]}", "shape": (len(e), e.shape().signed)})
     sims = sim_exprs(sigs, exprs_, envs)
     return {"seed": seed, "cases": cases, "sims": sims, "envs": envs, "hist": hist,
@@ -252,11 +252,18 @@ def judge_derived(chk, job, path, resps):
             chk.hist("derived_out_of_spec", 1)        # e.g. out-of-range array index: not covered by the property
             continue
         parts = resp.split(" ; ")
-        head = parts[0].split()
+        head = parts[0].split(None, 3)
         shape = (int(head[1]), head[2] == "s")
         vals = parts[1:]
         chk.count(len(vals))
         chk.distinct(c["req"], len(set(vals)) > 1)
+        built = head[3] if len(head) > 3 else "built=na"
+        chk.hist("derived_built:" + built.split(":")[0][6:], 1)
+        if built.startswith("built=differs"):
+            # the construction-time rewrite is not the modelled one: theorem derived_build_spec says nothing
+            # about this code any more; the value comparison below is the search for a failing input
+            chk.not_shown(f"the nodes built for {c['repr'][:80]} are not the modelled rewrite (theorem Amaranth.derived_build_spec)",
+                          dict(base, kind="derived-built", model=built[len("built=differs:"):][:2000]))
         if shape != tuple(c["shape"]):
             chk.violation(f"shape of {c['repr']} is {c['shape']}, the documented shape is {shape}",
                           dict(base, kind="derived-shape", impl=c["shape"], spec=shape, classes=[]))
